@@ -269,7 +269,7 @@ func c03Run(c *core.Ctx) *core.Result {
 		r.Count("prior_dirs_announced_as_symlink_or_fifo", 1)
 	}
 	// one mutation
-	mut := core.Pick(R, []string{"none", "none", "dotdot", "dot", "empty", "updown", "dotdotx", "abs", "unclean", "dup", "order", "childofnondir", "noparent", "hl-unknown", "hl-later", "hl-escape", "hl-nonfile", "data-unsolicited", "data-afterterm", "backslash", "newline", "hugesize", "fin-early", "stat-after-end", "err-packet", "req-from-sender"})
+	mut := core.Pick(R, []string{"none", "none", "dotdot", "dot", "empty", "updown", "dotdotx", "abs", "unclean", "dup", "order", "childofnondir", "noparent", "hl-unknown", "hl-later", "hl-escape", "hl-nonfile", "data-unsolicited", "data-afterterm", "backslash", "newline", "hugesize", "fin-early", "stat-after-end", "err-packet", "req-from-sender", "hl-via-dest-symlink", "hl-via-dest-symlink"})
 	k := 0
 	if len(stats) > 0 {
 		k = R.Intn(len(stats) + 1)
@@ -303,6 +303,7 @@ func c03Run(c *core.Ctx) *core.Result {
 		}
 	}
 	var unsolicited []hpkt
+	hlSrc, hlDst := "", ""
 	extraAfterEnd := false
 	finEarly := false
 	switch mut {
@@ -382,6 +383,20 @@ func c03Run(c *core.Ctx) *core.Result {
 		st := fileStat("zzz-huge")
 		st.Size = 1 << 60
 		stats = append(stats, st)
+	case "hl-via-dest-symlink":
+		// a well-formed stream: regular file X, later a hard link to X. The
+		// destination holds a symlink named X that points outside; the receiver
+		// runs in merge + metadata-only mode with a selector that does not
+		// select X (set below), so X is never written and the link must not be
+		// made to (or applied through) the old symlink
+		hlSrc, hlDst = "0hl-src", "zz-hl-member"
+		stats = append([]*types.Stat{fileStat(hlSrc)}, stats...)
+		m := hlStat(hlDst)
+		m.Mode = 0600
+		m.Linkname = hlSrc
+		stats = append(stats, m)
+		os.Remove(filepath.Join(dest, hlSrc))
+		os.Symlink(core.Pick(R, []string{outside + "/file", outside + "/dir", up + rc + "/outside/file"}), filepath.Join(dest, hlSrc))
 	case "err-packet":
 		unsolicited = append(unsolicited, hpkt{Kind: "err", Data: []byte("sender says no")})
 	case "req-from-sender":
@@ -400,6 +415,12 @@ func c03Run(c *core.Ctx) *core.Result {
 	case "metaonly":
 		opt.MetaOnly = core.Pick(R, []string{"none", "all", "files"})
 	}
+	if hlSrc != "" {
+		mode = "merge+metaonly"
+		opt.Merge = true
+		opt.MetaOnly = "not:" + hlSrc
+	}
+	_ = hlDst
 	var script []string
 	for _, st := range stats {
 		script = append(script, hpkt{Kind: "stat", Stat: st}.String())
